@@ -3,6 +3,7 @@ import Verif.Properties.C01
 import Verif.Properties.C01Move
 import Verif.Properties.C01RetargetExample
 import Verif.Properties.C01PhasesExample
+import Verif.Properties.C01Import
 #print axioms C01.cert_sound
 #print axioms C01.validated_start_pairs
 #print axioms C01.example_accepts
@@ -20,6 +21,8 @@ import Verif.Properties.C01PhasesExample
 #print axioms C01.retarget_sequence_preserves_meaning
 #print axioms C01.retarget_run_preserves_meaning
 #print axioms C01.PhasesExample.example_applies
+#print axioms C01.import_preserves_meaning
+#print axioms C01.ImportExample.example_applies
 #print axioms C01.rewriteSchemaToRef_is_setAt
 #print axioms C01.tiny_targetsOK
 #print axioms C01.tiny_stable
